@@ -785,7 +785,30 @@ Section Oracles.
 End Oracles.
 
 (* ------------------------------------------------------------------ *)
-(* histories with rewrites of the committed filter headers *)
+(* the database as a finite map: puts to OTHER keys do not change a lookup *)
+Lemma db_get_put_other d kv k : fst kv <> k -> db_get (db_put d kv) k = db_get d k.
+Proof.
+  intros Hne. unfold db_get, db_put. cbn [find].
+  destruct (fst kv =? k) eqn:E; [apply Z.eqb_eq in E; contradiction|].
+  induction d as [|p d IH]; [reflexivity|]. cbn [filter find].
+  destruct (fst p =? fst kv) eqn:E1; cbn [negb].
+  - apply Z.eqb_eq in E1. destruct (fst p =? k) eqn:E2; [|exact IH].
+    apply Z.eqb_eq in E2. congruence.
+  - cbn [find]. destruct (fst p =? k); [reflexivity|exact IH].
+Qed.
+
+Lemma db_get_put_all_other w : forall d k,
+  ~ In k (map fst w) -> db_get (db_put_all d w) k = db_get d k.
+Proof.
+  induction w as [|kv w IH]; intros d k Hn; [reflexivity|].
+  cbn [db_put_all fold_left]. change (fold_left db_put w (db_put d kv)) with (db_put_all (db_put d kv) w).
+  rewrite IH; [|intros H; apply Hn; right; exact H].
+  apply db_get_put_other. intros E. apply Hn. left. exact E.
+Qed.
+
+(* ------------------------------------------------------------------ *)
+(* histories with rewrites of the committed filter headers, GetBlock calls and
+   database lookups overlapped by other writers *)
 Section Rewrites.
   Variable Hf : Z -> Z -> Z.
   Variable fsize : Z -> Z.
@@ -796,10 +819,10 @@ Section Rewrites.
   Notation xrun := (xrun Hf fsize cap persist).
   Notation xfinal := (xfinal Hf fsize cap persist).
 
-  (* ghost flag clear => cache, database and queue satisfy the relation for
+  (* ghost flags clear => cache, database and queue satisfy the relation for
      the headers committed NOW *)
   Definition xinv (st : xstate) : Prop :=
-    stale st = false -> state_ok Hf (hdrs st) (base st).
+    stale st = false -> envbad st = false -> state_ok Hf (hdrs st) (base st).
 
   Lemma entries_ok_state_ok fh g : entries_ok Hf fh g = true -> state_ok Hf fh g.
   Proof.
@@ -813,23 +836,71 @@ Section Rewrites.
   Lemma xstep_base st o :
     xstep st (XBase o) =
     ({| base := fst (step Hf (hdrs st) fsize (xbest st) cap persist (base st) o);
-        hdrs := hdrs st; xbest := xbest st; stale := stale st |},
+        hdrs := hdrs st; xbest := xbest st; stale := stale st; envbad := envbad st |},
      snd (step Hf (hdrs st) fsize (xbest st) cap persist (base st) o)).
   Proof. cbn [Model.xstep]. destruct (step _ _ _ _ _ _ _ o). reflexivity. Qed.
 
-  Lemma xstep_stale_mono st o : stale (fst (xstep st o)) = false -> stale st = false.
+  (* the call part of an overlapped lookup, and the two shapes of XCallW *)
+  Definition gcall (st : xstate) (c : call) : gstate * obs :=
+    get_cfilter Hf (hdrs st) fsize (xbest st) cap persist (base st) c.
+
+  Definition wdb (st : xstate) (c : call) (w : list (Z * Z)) : gstate :=
+    {| cache := cache (fst (gcall st c)); db := db_put_all (db (fst (gcall st c))) w;
+       dbq := dbq (fst (gcall st c)) |}.
+
+  Lemma xstep_callw st c w :
+    xstep st (XCallW c w) =
+    if read_window (base st) c then
+      ({| base := wdb st c w; hdrs := hdrs st; xbest := xbest st; stale := stale st;
+          envbad := envbad st || negb (forallb (entry_ok Hf (hdrs st)) w) |},
+       {| o_res := o_res (snd (gcall st c)); o_queried := o_queried (snd (gcall st c));
+          o_range := o_range (snd (gcall st c)); o_prog := o_prog (snd (gcall st c));
+          o_cache := o_cache (snd (gcall st c)); o_db := db (wdb st c w) |})
+    else
+      ({| base := fst (gcall st c); hdrs := hdrs st; xbest := xbest st; stale := stale st;
+          envbad := envbad st |}, snd (gcall st c)).
   Proof.
-    destruct o as [o|nb nf]; [rewrite xstep_base; cbn; auto|].
-    cbn. intros H. apply orb_false_iff in H. tauto.
+    cbn [Model.xstep Model.step]. unfold wdb, gcall.
+    destruct (get_cfilter _ _ _ _ _ _ _ c). reflexivity.
+  Qed.
+
+  Lemma gcall_db st c : db (fst (gcall st c)) = db (base st).
+  Proof. unfold gcall. apply get_cfilter_growth. Qed.
+
+  Lemma xstep_flags_mono st o :
+    stale (fst (xstep st o)) = false -> envbad (fst (xstep st o)) = false ->
+    stale st = false /\ envbad st = false.
+  Proof.
+    destruct o as [o|nb nf|b|c w].
+    - rewrite xstep_base; cbn; auto.
+    - cbn. intros H. apply orb_false_iff in H. tauto.
+    - cbn. auto.
+    - rewrite xstep_callw. destruct (read_window (base st) c); cbn; auto.
+      intros H1 H2. apply orb_false_iff in H2. tauto.
+  Qed.
+
+  Lemma wdb_ok st c w :
+    state_ok Hf (hdrs st) (fst (gcall st c)) -> forallb (entry_ok Hf (hdrs st)) w = true ->
+    state_ok Hf (hdrs st) (wdb st c w).
+  Proof.
+    intros (Hc & Hd & Hq) Hw. repeat split; cbn [wdb cache db dbq]; auto.
+    intros b f H. apply db_put_all_In in H as [H|H]; [apply Hd, H|].
+    rewrite forallb_forall in Hw. exact (Hw _ H).
   Qed.
 
   Lemma xstep_inv st o : xinv st -> xinv (fst (xstep st o)).
   Proof.
-    intros Hi Hs. pose proof (xstep_stale_mono st o Hs) as Hs0. revert Hs.
-    destruct o as [o|nb nf].
-    - rewrite xstep_base. cbn [fst base hdrs stale]. intros _. apply step_inv, Hi, Hs0.
-    - cbn. intros H. apply orb_false_iff in H as [_ H]. apply negb_false_iff in H.
+    intros Hi Hs He. destruct (xstep_flags_mono st o Hs He) as [Hs0 He0]. revert Hs He.
+    destruct o as [o|nb nf|b|c w].
+    - rewrite xstep_base. cbn [fst base hdrs stale]. intros _ _. apply step_inv, Hi; assumption.
+    - cbn. intros H _. apply orb_false_iff in H as [_ H]. apply negb_false_iff in H.
       apply entries_ok_state_ok, H.
+    - cbn. intros _ _. apply Hi; assumption.
+    - rewrite xstep_callw.
+      pose proof (get_cfilter_inv Hf (hdrs st) fsize (xbest st) cap persist (base st) c (Hi Hs0 He0)) as Hg.
+      destruct (read_window (base st) c); cbn [fst base hdrs stale envbad]; [|intros _ _; exact Hg].
+      intros _ H. apply orb_false_iff in H as [_ H]. apply negb_false_iff in H.
+      apply wdb_ok; assumption.
   Qed.
 
   Lemma xrun_cons st o ops : xrun st (o :: ops) = snd (xstep st o) :: xrun (fst (xstep st o)) ops.
@@ -843,39 +914,81 @@ Section Rewrites.
     induction ops as [|o ops IH]; intros st H; [exact H|]. cbn. apply IH, xstep_inv, H.
   Qed.
 
-  (* UNLESS: as long as no rewrite has invalidated a stored entry, the full
-     property holds after any history with rewrites, w.r.t. the headers
-     committed at that point *)
+  Lemma xfinal_flags_mono ops : forall st,
+    stale (xfinal st ops) = false -> envbad (xfinal st ops) = false ->
+    stale st = false /\ envbad st = false.
+  Proof.
+    induction ops as [|o ops IH]; intros st H1 H2; [auto|].
+    cbn in H1, H2. destruct (IH _ H1 H2) as [A B]. exact (xstep_flags_mono st o A B).
+  Qed.
+
+  (* the call of an overlapped lookup is observed like an undisturbed call *)
+  Definition call_of (o : xop) : option call :=
+    match o with XBase (Call c) => Some c | XCallW c _ => Some c | _ => None end.
+
+  Lemma xstep_callw_obs st c w :
+    let ob := snd (xstep st (XCallW c w)) in
+    o_res ob = o_res (snd (gcall st c)) /\ o_queried ob = o_queried (snd (gcall st c)) /\
+    o_range ob = o_range (snd (gcall st c)) /\ o_prog ob = o_prog (snd (gcall st c)) /\
+    o_cache ob = o_cache (snd (gcall st c)) /\
+    cache (base (fst (xstep st (XCallW c w)))) = cache (fst (gcall st c)) /\
+    dbq (base (fst (xstep st (XCallW c w)))) = dbq (fst (gcall st c)) /\
+    o_db ob = db (base (fst (xstep st (XCallW c w)))).
+  Proof.
+    cbv zeta. rewrite xstep_callw. destruct (read_window (base st) c); cbn; repeat split.
+    unfold gcall. apply step_obs with (o := Call c).
+  Qed.
+
+  (* UNLESS: as long as no rewrite has invalidated a stored entry (and the
+     overlapping writers stored verified filters only), the full property
+     holds after any history, w.r.t. the headers committed at that point *)
   Lemma xstep_unless st o :
-    xinv st -> stale (fst (xstep st o)) = false ->
+    xinv st -> stale (fst (xstep st o)) = false -> envbad (fst (xstep st o)) = false ->
     let fh' := hdrs (fst (xstep st o)) in
     let ob := snd (xstep st o) in
-    (forall c f, o = XBase (Call c) -> o_res ob = RFilter f -> verified Hf fh' (c_blk c) f = true) /\
+    (forall c f, call_of o = Some c -> o_res ob = RFilter f -> verified Hf fh' (c_blk c) f = true) /\
     (forall b f, In (b, f) (o_cache ob) -> verified Hf fh' b f = true) /\
     (forall b f, In (b, f) (o_db ob) -> verified Hf fh' b f = true).
   Proof.
-    intros Hi Hs. pose proof (xstep_inv st o Hi Hs) as Hok'.
-    pose proof (xstep_stale_mono st o Hs) as Hs0. pose proof (Hi Hs0) as Hok.
-    destruct o as [o|nb nf].
+    intros Hi Hs He. pose proof (xstep_inv st o Hi Hs He) as Hok'.
+    destruct (xstep_flags_mono st o Hs He) as [Hs0 He0]. pose proof (Hi Hs0 He0) as Hok.
+    destruct o as [o|nb nf|b|c w].
     - rewrite xstep_base in *. cbn [fst snd hdrs base] in *.
       pose proof (every_history Hf (hdrs st) fsize (xbest st) cap persist [o] (base st) Hok o
                     (snd (step Hf (hdrs st) fsize (xbest st) cap persist (base st) o))) as H.
       rewrite run_cons in H. cbn [combine] in H. destruct (H (or_introl eq_refl)) as (H1 & H2 & H3).
-      repeat split; auto. intros c f [= ->]. apply H1. reflexivity.
+      repeat split; auto. intros c f Hc. apply H1. destruct o; try discriminate. injection Hc as ->. reflexivity.
     - cbn [Model.xstep fst snd hdrs base mk_obs o_res o_cache o_db] in *.
       destruct Hok' as (Hc & Hd & _). repeat split.
       + discriminate.
-      + intros b f H. unfold cache_view in H. apply in_map_iff in H as (e & [= <- <-] & He). apply Hc, He.
+      + intros b f H. unfold cache_view in H. apply in_map_iff in H as (e & [= <- <-] & He'). apply Hc, He'.
       + intros b f H. apply Hd, H.
+    - cbn [Model.xstep fst snd hdrs base mk_obs o_res o_cache o_db] in *.
+      destruct Hok as (Hc & Hd & _). repeat split.
+      + discriminate.
+      + intros b' f H. unfold cache_view in H. apply in_map_iff in H as (e & [= <- <-] & He'). apply Hc, He'.
+      + intros b' f H. apply Hd, H.
+    - destruct (xstep_callw_obs st c w) as (E1 & _ & _ & _ & E5 & E6 & _ & E8).
+      assert (Eh : hdrs (fst (xstep st (XCallW c w))) = hdrs st).
+      { rewrite xstep_callw. destruct (read_window (base st) c); reflexivity. }
+      cbv zeta. rewrite Eh. rewrite Eh in Hok'. destruct Hok' as (Hc & Hd & _).
+      repeat split.
+      + intros c' f [= <-]. rewrite E1. unfold gcall. apply get_cfilter_verified. exact Hok.
+      + intros b f H. rewrite E5 in H.
+        pose proof (step_obs Hf (hdrs st) fsize (xbest st) cap persist (base st) (Call c)) as [Eo _].
+        cbn [Model.step] in Eo. unfold gcall in H. rewrite Eo in H. unfold cache_view in H.
+        apply in_map_iff in H as (e & [= <- <-] & He').
+        apply Hc. rewrite E6. exact He'.
+      + intros b f H. rewrite E8 in H. apply Hd, H.
   Qed.
 
   Lemma every_history_unless ops1 o st0 :
     xinv st0 ->
     let st := xfinal st0 ops1 in
-    stale (fst (xstep st o)) = false ->
+    stale (fst (xstep st o)) = false -> envbad (fst (xstep st o)) = false ->
     let fh' := hdrs (fst (xstep st o)) in
     let ob := snd (xstep st o) in
-    (forall c f, o = XBase (Call c) -> o_res ob = RFilter f -> verified Hf fh' (c_blk c) f = true) /\
+    (forall c f, call_of o = Some c -> o_res ob = RFilter f -> verified Hf fh' (c_blk c) f = true) /\
     (forall b f, In (b, f) (o_cache ob) -> verified Hf fh' b f = true) /\
     (forall b f, In (b, f) (o_db ob) -> verified Hf fh' b f = true).
   Proof. intros Hi st. apply xstep_unless, xfinal_inv, Hi. Qed.
@@ -898,60 +1011,200 @@ Section Rewrites.
       apply G in He as [He|(_ & _ & Hv)]; auto.
   Qed.
 
+  (* a retry after the committed headers were rewritten: whatever was asked,
+     answered or failed before the rewrite, a filter the retry fetches from
+     the network satisfies the relation for the REWRITTEN headers (the code
+     keeps no header range from one query to the next) *)
+  Lemma retry_after_rewrite st0 ops1 c1 nb nf c f :
+    let st := xfinal st0 (ops1 ++ [XBase (Call c1); XRewrite nb nf]) in
+    let ob := snd (xstep st (XBase (Call c))) in
+    o_res ob = RFilter f -> o_queried ob = true -> verified Hf nf (c_blk c) f = true.
+  Proof.
+    intros st ob Hres Hq.
+    destruct (snapshot_verified (ops1 ++ [XBase (Call c1); XRewrite nb nf]) c st0 f Hres Hq) as [H _].
+    replace (hdrs (xfinal st0 (ops1 ++ [XBase (Call c1); XRewrite nb nf]))) with nf in H; [exact H|].
+    rewrite xfinal_app. cbn [Model.xfinal fold_left]. reflexivity.
+  Qed.
+
+  (* ---------------------------------------------------------------- *)
+  (* GetBlock: no producer of filters *)
+  Lemma getblock_unchanged st b :
+    xstep st (XGetBlock b) = (st, mk_obs (base st) RNone false (0, 0) []).
+  Proof. reflexivity. Qed.
+
+  Definition not_getblock (o : xop) : bool := match o with XGetBlock _ => false | _ => true end.
+
+  Lemma getblock_transparent ops : forall st,
+    xfinal st (filter not_getblock ops) = xfinal st ops /\
+    xrun st (filter not_getblock ops) =
+      map snd (filter (fun p => not_getblock (fst p)) (combine ops (xrun st ops))).
+  Proof.
+    induction ops as [|o ops IH]; intros st; [split; reflexivity|].
+    rewrite xrun_cons. cbn [combine filter fst].
+    destruct (not_getblock o) eqn:E.
+    - cbn [filter map snd]. rewrite xrun_cons.
+      destruct (IH (fst (xstep st o))) as [A B]. split; [exact A|]. rewrite B. reflexivity.
+    - destruct o; try discriminate. cbn [Model.xstep fst]. apply IH.
+  Qed.
+
+  (* ---------------------------------------------------------------- *)
+  (* database lookups overlapped by other writers: snapshot semantics *)
+
+  (* committing w after the call = committing it right after the lookup's read
+     transaction: get_cfilter never writes the database itself *)
+  Lemma callw_two_phase st c w :
+    read_window (base st) c = true ->
+    db (base (fst (xstep st (XCallW c w)))) = snd (db_fetch (db (base st)) (c_blk c) w).
+  Proof.
+    intros Hw. rewrite xstep_callw, Hw. cbn [fst base wdb db db_fetch snd]. rewrite gcall_db. reflexivity.
+  Qed.
+
+  Lemma read_window_miss g c :
+    c_ftype_ok c = true -> (forall e, In e (cache g) -> ekey e <> c_blk c) -> read_window g c = true.
+  Proof.
+    intros Hft Hm. unfold read_window. rewrite Hft. cbn [andb].
+    destruct (lru_find (cache g) (c_blk c)) as [e|] eqn:F; [|reflexivity].
+    exfalso. unfold lru_find in F. apply find_some in F as [Hin Hk]. apply Z.eqb_eq in Hk.
+    exact (Hm e Hin Hk).
+  Qed.
+
+  Lemma db_read_snapshot st c w f :
+    c_ftype_ok c = true ->
+    (forall e, In e (cache (base st)) -> ekey e <> c_blk c) ->
+    db_get (db (base st)) (c_blk c) = Some f ->
+    let st' := fst (xstep st (XCallW c w)) in
+    let ob := snd (xstep st (XCallW c w)) in
+    fst (db_fetch (db (base st)) (c_blk c) w) = Some f /\
+    o_res ob = RFilter f /\ o_queried ob = false /\
+    cache (base st') = cache (base st) /\ dbq (base st') = dbq (base st) /\
+    db (base st') = db_put_all (db (base st)) w /\
+    (~ In (c_blk c) (map fst w) -> db_get (db (base st')) (c_blk c) = Some f).
+  Proof.
+    intros Hft Hm Hdb. cbv zeta.
+    pose proof (read_window_miss (base st) c Hft Hm) as Hw.
+    assert (Hg : gcall st c = (base st, mk_obs (base st) (RFilter f) false (0, 0) [])).
+    { unfold gcall, Model.get_cfilter. rewrite Hft. cbn [negb].
+      destruct (lru_get (cache (base st)) (c_blk c)) as [[hv|] hc] eqn:Hget.
+      - exfalso. apply lru_get_some in Hget as (e & Hin & Hk & _). exact (Hm e Hin Hk).
+      - rewrite Hdb. reflexivity. }
+    rewrite xstep_callw, Hw. unfold wdb. rewrite Hg. cbn [fst snd base cache db dbq mk_obs o_res o_queried db_fetch].
+    repeat split; auto. intros Hn. rewrite db_get_put_all_other; assumption.
+  Qed.
+
+  (* whatever the overlapping writers store, even under the SAME key: the
+     call returns, requests, reports and caches exactly what the undisturbed
+     call does; only the database differs, by exactly the writers' puts *)
+  Lemma write_window_only_changes_db st c w :
+    let sw := xstep st (XCallW c w) in
+    let s0 := xstep st (XBase (Call c)) in
+    o_res (snd sw) = o_res (snd s0) /\ o_queried (snd sw) = o_queried (snd s0) /\
+    o_range (snd sw) = o_range (snd s0) /\ o_prog (snd sw) = o_prog (snd s0) /\
+    o_cache (snd sw) = o_cache (snd s0) /\
+    cache (base (fst sw)) = cache (base (fst s0)) /\ dbq (base (fst sw)) = dbq (base (fst s0)) /\
+    hdrs (fst sw) = hdrs (fst s0) /\ xbest (fst sw) = xbest (fst s0) /\ stale (fst sw) = stale (fst s0) /\
+    db (base (fst sw)) = (if read_window (base st) c then db_put_all (db (base st)) w else db (base st)).
+  Proof.
+    cbv zeta. rewrite xstep_base. cbn [Model.step fst snd base hdrs xbest stale].
+    rewrite xstep_callw. fold (gcall st c).
+    destruct (read_window (base st) c); cbn [fst snd base hdrs xbest stale wdb cache db dbq o_res o_queried o_range o_prog o_cache];
+      rewrite ?gcall_db; repeat split; reflexivity.
+  Qed.
+
+  (* ---------------------------------------------------------------- *)
   (* the core monitor accepts every model trace with rewrites; the strict
-     monitor accepts it whenever the ghost flag is clear at the end *)
+     monitor accepts it whenever the ghost flags are clear at the end *)
   Definition xops_wf (ops : list xop) : Prop :=
     (forall c, In (XBase (Call c)) ops -> 0 <= c_blk c < two32) /\
-    (forall nb nf, In (XRewrite nb nf) ops -> 0 <= nb < two32).
+    (forall nb nf, In (XRewrite nb nf) ops -> 0 <= nb < two32) /\
+    (forall c w, In (XCallW c w) ops -> 0 <= c_blk c < two32).
+
+  Lemma window_seen_read_window g c : window_seen (cache_view (cache g)) c = read_window g c.
+  Proof.
+    unfold window_seen, read_window. f_equal. unfold lru_find.
+    induction (cache g) as [|e l IH]; [reflexivity|]. cbn [cache_view map existsb find fst].
+    change (fst (ekey e, eval e)) with (ekey e).
+    destruct (ekey e =? c_blk c); [reflexivity|]. cbn [orb]. exact IH.
+  Qed.
+
+  Lemma rewrite_ok_same strict fh g :
+    (strict = true -> state_ok Hf fh g) ->
+    rewrite_ok Hf strict fh (cache_view (cache g)) (db g) (mk_obs g RNone false (0, 0) []) = true.
+  Proof.
+    intros X. unfold rewrite_ok. cbn [mk_obs o_cache o_db]. apply andb_true_iff.
+    split; apply forallb_forall; intros x Hx; apply andb_true_iff; (split; [|apply pmem_In, Hx]);
+      (destruct strict; cbn [negb]; [|apply orb_true_r]); destruct (X eq_refl) as (Hc & Hd & _).
+    - unfold cache_view in Hx. apply in_map_iff in Hx as (e & <- & He). cbn [fst snd].
+      rewrite (Hc e He). reflexivity.
+    - destruct x as [b f]. cbn [fst snd]. rewrite (Hd b f Hx). reflexivity.
+  Qed.
 
   Lemma xfirst_bad_model strict ops : forall st sv i,
     0 <= xbest st < two32 -> xops_wf ops ->
-    (strict = true -> stale (xfinal st ops) = false) -> xinv st ->
+    (strict = true -> stale (xfinal st ops) = false /\ envbad (xfinal st ops) = false) -> xinv st ->
     (forall p, In p (dbq (base st)) -> In p sv) ->
     xfirst_bad Hf strict (hdrs st) (xbest st) i (cache_view (cache (base st))) (db (base st)) sv
       (combine ops (xrun st ops)) = None.
   Proof.
-    induction ops as [|o ops IH]; intros st sv i Hb [Hw1 Hw2] Hs Hi Hm; [reflexivity|].
+    induction ops as [|o ops IH]; intros st sv i Hb (Hw1 & Hw2 & Hw3) Hs Hi Hm; [reflexivity|].
     rewrite xrun_cons. cbn [combine].
-    assert (Hs1 : strict = true -> stale (fst (xstep st o)) = false).
-    { intros E. specialize (Hs E). cbn in Hs. clear -Hs.
-      revert Hs. generalize (fst (xstep st o)). induction ops as [|o' ops IH']; intros s H; [exact H|].
-      cbn in H. apply IH' in H. eapply xstep_stale_mono, H. }
+    assert (Hs1 : strict = true -> stale (fst (xstep st o)) = false /\ envbad (fst (xstep st o)) = false).
+    { intros E. destruct (Hs E) as [A B]. exact (xfinal_flags_mono ops _ A B). }
+    assert (Hs0 : strict = true -> state_ok Hf (hdrs st) (base st)).
+    { intros E. destruct (Hs1 E) as [A B]. destruct (xstep_flags_mono st o A B) as [A0 B0]. exact (Hi A0 B0). }
     assert (Hwf' : xops_wf ops).
-    { split; [intros c Hc; apply Hw1; right; exact Hc|intros nb nf Hc; apply (Hw2 nb nf); right; exact Hc]. }
-    destruct o as [o|nb nf].
-    - rewrite xstep_base. cbn [fst snd Spec.xfirst_bad].
+    { split; [intros c Hc; apply Hw1; right; exact Hc|].
+      split; [intros nb nf Hc; apply (Hw2 nb nf); right; exact Hc|intros c w Hc; apply (Hw3 c w); right; exact Hc]. }
+    assert (Hs' : strict = true -> stale (xfinal (fst (xstep st o)) ops) = false /\
+                                   envbad (xfinal (fst (xstep st o)) ops) = false) by exact Hs.
+    pose proof (xstep_inv st o Hi) as Hi'.
+    destruct o as [o|nb nf|b|c w].
+    - rewrite xstep_base in *. cbn [fst snd Spec.xfirst_bad].
       destruct (step_ok_model Hf (hdrs st) fsize (xbest st) cap persist strict (base st) sv o Hb)
         as (Hok & Hm' & Hpd).
       { intros c ->. apply Hw1. left. reflexivity. }
-      { intros E. apply Hi. eapply xstep_stale_mono, Hs1, E. }
+      { exact Hs0. }
       { exact Hm. }
       rewrite Hok, Hpd.
       destruct (step_obs Hf (hdrs st) fsize (xbest st) cap persist (base st) o) as [-> _].
       pose proof (IH {| base := fst (step Hf (hdrs st) fsize (xbest st) cap persist (base st) o);
-                        hdrs := hdrs st; xbest := xbest st; stale := stale st |} (next_sv sv o) (i + 1)) as IH'.
+                        hdrs := hdrs st; xbest := xbest st; stale := stale st; envbad := envbad st |}
+                     (next_sv sv o) (i + 1)) as IH'.
       cbn [base hdrs xbest] in IH'. apply IH'; auto.
-      + intros E. specialize (Hs E).
-        change (xfinal st (XBase o :: ops)) with (xfinal (fst (xstep st (XBase o))) ops) in Hs.
-        rewrite xstep_base in Hs. exact Hs.
-      + pose proof (xstep_inv st (XBase o) Hi) as X. rewrite xstep_base in X. exact X.
-    - cbn [Model.xstep fst snd Spec.xfirst_bad mk_obs o_cache o_db].
+    - cbn [Model.xstep fst snd Spec.xfirst_bad mk_obs o_cache o_db] in *.
       assert (Hr : rewrite_ok Hf strict nf (cache_view (cache (base st))) (db (base st))
                      (mk_obs (base st) RNone false (0, 0) []) = true).
-      { unfold rewrite_ok. cbn [mk_obs o_cache o_db]. apply andb_true_iff.
-        pose proof (xstep_inv st (XRewrite nb nf) Hi) as X. cbn [Model.xstep fst] in X.
-        split; apply forallb_forall; intros x Hx; apply andb_true_iff; (split; [|apply pmem_In, Hx]);
-          (destruct strict; cbn [negb]; [|apply orb_true_r]);
-          specialize (Hs1 eq_refl); cbn [Model.xstep fst] in Hs1; destruct (X Hs1) as (Hc & Hd & _);
-          cbn [base hdrs] in Hc, Hd.
-        - unfold cache_view in Hx. apply in_map_iff in Hx as (e & <- & He). cbn [fst snd].
-          rewrite (Hc e He). reflexivity.
-        - destruct x as [b f]. cbn [fst snd]. rewrite (Hd b f Hx). reflexivity. }
+      { apply rewrite_ok_same. intros E. destruct (Hs1 E) as [A B]. exact (Hi' A B). }
       cbn [mk_obs o_cache o_db] in Hr. rewrite Hr.
       pose proof (IH {| base := base st; hdrs := nf; xbest := nb;
-                        stale := stale st || negb (entries_ok Hf nf (base st)) |} sv (i + 1)) as IH'.
+                        stale := stale st || negb (entries_ok Hf nf (base st)); envbad := envbad st |} sv (i + 1)) as IH'.
       cbn [base hdrs xbest] in IH'. apply IH'; auto.
-      + apply (Hw2 nb nf). left. reflexivity.
-      + exact (xstep_inv st (XRewrite nb nf) Hi).
+      apply (Hw2 nb nf). left. reflexivity.
+    - cbn [Model.xstep fst snd Spec.xfirst_bad mk_obs o_cache o_db] in *.
+      pose proof (rewrite_ok_same strict (hdrs st) (base st) Hs0) as Hr.
+      cbn [mk_obs o_cache o_db] in Hr. rewrite Hr. apply IH; auto.
+    - cbn [Spec.xfirst_bad].
+      destruct (step_ok_model Hf (hdrs st) fsize (xbest st) cap persist strict (base st) sv (Call c) Hb)
+        as (Hok & Hm' & _).
+      { intros c' [= <-]. apply (Hw3 c w). left. reflexivity. }
+      { exact Hs0. }
+      { exact Hm. }
+      cbn [Model.step next_sv] in Hok, Hm'. fold (gcall st c) in Hok, Hm'.
+      destruct (xstep_callw_obs st c w) as (E1 & E2 & E3 & E4 & E5 & E6 & E7 & E8).
+      assert (Hok2 : step_ok Hf (hdrs st) (xbest st) strict (cache_view (cache (base st))) (db (base st)) sv
+                       (Call c) (snd (xstep st (XCallW c w))) = true).
+      { rewrite <- Hok. unfold Spec.step_ok. rewrite E1, E2, E3, E5. reflexivity. }
+      rewrite Hok2. rewrite window_seen_read_window. rewrite E5.
+      pose proof (step_obs Hf (hdrs st) fsize (xbest st) cap persist (base st) (Call c)) as [Eo _].
+      cbn [Model.step] in Eo. fold (gcall st c) in Eo. rewrite Eo, <- E6.
+      assert (Ed : (if read_window (base st) c then db_put_all (db (base st)) w else db (base st)) =
+                   db (base (fst (xstep st (XCallW c w))))).
+      { rewrite xstep_callw. destruct (read_window (base st) c); cbn [fst base wdb db]; rewrite gcall_db; reflexivity. }
+      rewrite Ed.
+      assert (Eh : hdrs (fst (xstep st (XCallW c w))) = hdrs st /\ xbest (fst (xstep st (XCallW c w))) = xbest st).
+      { rewrite xstep_callw. destruct (read_window (base st) c); split; reflexivity. }
+      destruct Eh as [Eh Eb].
+      pose proof (IH (fst (xstep st (XCallW c w))) (served c ++ sv) (i + 1)) as IH'.
+      rewrite Eh, Eb in IH'. apply IH'; auto.
+      intros p Hp. rewrite E7 in Hp. apply Hm', Hp.
   Qed.
 End Rewrites.
